@@ -40,21 +40,13 @@ class C08(CFGProp):
                 r = ctx.call(g.generate_epsilon)
                 if ctx.returns(r, "C08.generate_epsilon"):
                     ctx.expect(r.value is (() in lang), "C08.generate_epsilon", got=r.value, want=() in lang)
-            for w in wl:
-                want = w in lang
-                r = ctx.call(g.contains, list(w))
-                if not ctx.returns(r, "C08.contains", via=via, word=w):
-                    if r.kind == "timeout":
-                        return
-                    break
-                if r.value is not want:
-                    ctx.fail("C08.contains", via=via, word=w, got=r.value, want=want)
-                    break
-            for w in wl[:7]:
-                r = ctx.call(lambda: list(w) in g)
-                if ctx.returns(r, "C08.in", via=via, word=w) and r.value is not (w in lang):
-                    ctx.fail("C08.in", via=via, word=w, got=r.value, want=w in lang)
-                    break
+            first = ctx.call(g.contains, list(wl[0]))        # a non-terminating first query must not cost a whole batch
+            if first.kind == "timeout":
+                ctx.fail("C08.contains.terminates", via=via, word=wl[0])
+                return
+            if not ctx.batch_equal("C08.contains", lambda w: g.contains(list(w)), wl, lambda w: w in lang, via=via):
+                continue
+            ctx.batch_equal("C08.in", lambda w: list(w) in g, wl[:7], lambda w: w in lang, via=via)
 
 
 PROP = C08()
